@@ -43,6 +43,11 @@ import Darling.Props.C10Spec2
         derive (and rustc is silent about the unreachable arm): the later one can never be produced,
         and a string / nested word that names a unit variant is refused when a struct variant of the
         same name comes first.  `Unambiguous` is the side condition of the `…_partial` theorems.
+
+  Change with the repair F29 (C03: the emitted `from_list` spans the selected variant's errors with
+  the item that selected the variant): `ItemDemand` pins the span of a delegated / located error
+  that has none of its own to the selecting item `n` (it used to be the list around it, the only
+  span the old code ever offered); `fromList_one_demand` shows the list's span never replaces it.
 -/
 open Derive
 
@@ -103,11 +108,11 @@ def StringDemand (e : SEnum ν) (s : String) (r : Outcome ν) : Prop :=
   (∀ v x, Selectable e s v → stringValue v = some x → r = .ok x) ∧
   ((∀ v, Selectable e s v → stringValue v = none) → IsErr r)
 
-/-- a single nested item `n` inside the list spanned `sp`: the result the variant named by `n`
-    pins (its errors spanned at the list, if they carry no span of their own); when no variant of
-    that name pins one, an error -/
-def ItemDemand (e : SEnum ν) (n : Meta) (sp : Span) (r : Outcome ν) : Prop :=
-  (∀ v r0, Selectable e n.path'.toStr v → itemResult v n = some r0 → r = r0.mapErr (·.withSpan sp)) ∧
+/-- a single nested item `n`: the result the variant named by `n` pins (its errors spanned at `n`,
+    the item that selects the variant, if they carry no span of their own — never at the coarser
+    list around it); when no variant of that name pins one, an error -/
+def ItemDemand (e : SEnum ν) (n : Meta) (r : Outcome ν) : Prop :=
+  (∀ v r0, Selectable e n.path'.toStr v → itemResult v n = some r0 → r = r0.mapErr (·.withSpan n.span)) ∧
   ((∀ v, Selectable e n.path'.toStr v → itemResult v n = none) → IsErr r)
 
 /-- **the specification**: what the property text demands of the result `r` for the input `m` -/
@@ -125,7 +130,7 @@ def Demands (e : SEnum ν) (m : Meta) (r : Outcome ν) : Prop :=
       | some _ => IsErr r
       | none => (match items with
          | [] => r = .err ((Err.new (.tooFewItems 1)).withSpan sp)
-         | [.item n] => ItemDemand e n sp r
+         | [.item n] => ItemDemand e n r
          | [.lit _] => IsErr r
          | _ :: _ :: _ => r = .err ((Err.new (.tooManyItems 1)).withSpan sp)))
 
@@ -287,9 +292,23 @@ theorem dataArm_unpinned (v : SVariant ν) (n : Meta) (h : itemResult v n = none
       | nameValue _ _ _ _ => exact ⟨_, rfl⟩
       | list q items bad ts t sp => cases h
 
-/-- the emitted `from_list`, one nested item -/
+/-- `with_span` twice: the first (inner) writer wins -/
+theorem withSpan_withSpan (x : Err) (s t : Span) : (x.withSpan s).withSpan t = x.withSpan s := by
+  cases x with
+  | leaf k ls own => cases own <;> rfl
+  | multi cs ls own => cases own <;> rfl
+
+theorem mapErr_withSpan_withSpan (r : Outcome ν) (s t : Span) :
+    (r.mapErr (·.withSpan s)).mapErr (·.withSpan t) = r.mapErr (·.withSpan s) := by
+  cases r with
+  | ok x => rfl
+  | panic m => rfl
+  | err x => simp only [Outcome.mapErr, withSpan_withSpan]
+
+/-- the emitted `from_list`, one nested item: the selecting item's span is attached first, so the
+    span of the enclosing list (attached by the default `from_meta`) never shows -/
 theorem fromList_one_demand (e : SEnum ν) (hu : Unambiguous e) (hp : PlainStructVariants e) (n : Meta) (sp : Span) :
-    ItemDemand e n sp ((enumFromList e [.item n]).mapErr (·.withSpan sp)) := by
+    ItemDemand e n ((enumFromList e [.item n]).mapErr (·.withSpan sp)) := by
   rw [list_one]
   cases ha : e.arm n.path'.toStr with
   | none =>
@@ -300,9 +319,9 @@ theorem fromList_one_demand (e : SEnum ν) (hu : Unambiguous e) (hp : PlainStruc
       constructor
       · intro v r0 hv hr
         have := hu _ v w hv hsel; subst this
-        rw [dataArm_pinned v (fun s hk => hp v hv.1 s hk) n r0 hr]
+        rw [dataArm_pinned v (fun s hk => hp v hv.1 s hk) n r0 hr, mapErr_withSpan_withSpan]
       · intro hnone
-        exact (dataArm_unpinned w n (hnone w hsel)).mapErr _
+        exact ((dataArm_unpinned w n (hnone w hsel)).mapErr _).mapErr _
 
 /-! ### the value form -/
 
@@ -530,6 +549,7 @@ theorem ok_sound (e : SEnum ν) (m : Meta) (x : ν) (h : (enumHooks e).fromMeta 
               | none => rw [ha] at h'; cases h'
               | some v =>
                   rw [ha] at h'
+                  have h' := mapErr_eq_ok (f := (·.withSpan n.span)) h'
                   have hsel := selectable_of_arm e _ v ha
                   rcases dataArm_ok v n x h' with ⟨q, rfl, hk⟩ | ⟨fm, fn, wrap, y, hk, hy, rfl⟩ | ⟨s, q, its, ts', t', sp', hk, rfl, hx⟩
                   · exact .nestedWord p q ts t sp v x hsel hk
@@ -600,8 +620,8 @@ theorem StringDemand.determines {e : SEnum ν} {s : String} {r r' : Outcome ν}
       | some x => exact absurd ⟨v, x, hv, hs⟩ hx
     exact ⟨h.2 hn, h'.2 hn⟩
 
-theorem ItemDemand.determines {e : SEnum ν} {n : Meta} {sp : Span} {r r' : Outcome ν}
-    (h : ItemDemand e n sp r) (h' : ItemDemand e n sp r') : r = r' ∨ (IsErr r ∧ IsErr r') := by
+theorem ItemDemand.determines {e : SEnum ν} {n : Meta} {r r' : Outcome ν}
+    (h : ItemDemand e n r) (h' : ItemDemand e n r') : r = r' ∨ (IsErr r ∧ IsErr r') := by
   by_cases hx : ∃ v r0, Selectable e n.path'.toStr v ∧ itemResult v n = some r0
   · obtain ⟨v, r0, hv, hx⟩ := hx
     left; rw [h.1 v r0 hv hx, h'.1 v r0 hv hx]
@@ -1567,8 +1587,8 @@ def strLit (s : String) : Lit := ⟨.str s, "\"" ++ s ++ "\"", ⟨4, 7⟩⟩
 def strV (s : String) : Meta := .nameValue (pth "e") (.lit (strLit s)) "" ⟨0, 7⟩
 /-- `e(items)` -/
 def lst (items : List NestedMeta) : Meta := .list (pth "e") items none none "" ⟨0, 20⟩
-/-- `n` as a word -/
-def wd (n : String) : Meta := .path (pth n)
+/-- `n` as a word (as the single nested item of `lst`, it sits at 2..4) -/
+def wd (n : String) : Meta := .path { pth n with span := ⟨2, 4⟩ }
 
 /-- a struct body without fields: `V {}` -/
 def noFields (tag : String) : SStruct String :=
@@ -1588,11 +1608,11 @@ example : Produces dupE (strV "x") "B" :=
   .string _ _ _ _ (strLit "x") "x" _ "B" rfl rfl dupE_B_selectable rfl
 /-- … so does the single nested word `x` … -/
 example : Produces dupE (lst [.item (wd "x")]) "B" :=
-  .nestedWord _ (pth "x") _ _ _ _ "B" dupE_B_selectable rfl
+  .nestedWord _ _ _ _ _ _ "B" dupE_B_selectable rfl
 /-- … the behaviour: both are refused, because the struct variant `A` shadows `B` -/
 theorem dupE_string : (enumHooks dupE).fromMeta (strV "x") = .err (.leaf (.unexpectedFormat "literal") [] (some ⟨4, 7⟩)) := by
   rfl
-theorem dupE_word : (enumHooks dupE).fromMeta (lst [.item (wd "x")]) = .err (.leaf (.unexpectedFormat "non-list") [] (some ⟨0, 20⟩)) := by
+theorem dupE_word : (enumHooks dupE).fromMeta (lst [.item (wd "x")]) = .err (.leaf (.unexpectedFormat "non-list") [] (some ⟨2, 4⟩)) := by
   rfl
 
 /-- the behaviour does not meet the specification on this input (so `Unambiguous` cannot be dropped) -/
@@ -1632,8 +1652,10 @@ theorem svE_sv_pinned : itemResult ⟨"sv", false, .struct (noFields "Sv")⟩ (b
     = some (.err (.leaf (.custom "expected `,`") ["sv"] (some ⟨9, 10⟩))) := rfl
 /-- the wrong-form errors of a struct variant (`e(sv)`) and of a unit variant (`e(alpha = …)`) stay
     unlocated (an existing test of the library pins the message); the text only asks for "an error"
-    there, so the specification (`itemResult = none`) is indifferent -/
-example : (enumHooks svE).fromMeta (lst [.item (wd "sv")]) = .err (.leaf (.unexpectedFormat "non-list") [] (some ⟨0, 20⟩)) := rfl
+    there, so the specification (`itemResult = none`) is indifferent.  Since the repair of the
+    selecting item's span (C03, F29) the error shows the span of the offending item `sv`, not of
+    the list `e(sv)` around it -/
+example : (enumHooks svE).fromMeta (lst [.item (wd "sv")]) = .err (.leaf (.unexpectedFormat "non-list") [] (some ⟨2, 4⟩)) := rfl
 
 /-- the behaviour now meets the specification on the former counterexample -/
 theorem svE_demands :
